@@ -43,6 +43,12 @@ func (h *Handler) BindContext(ctx context.Context, server core.Server) {
 
 // Handler for mock.
 func (h *Handler) Handler(ctx context.Context, address string, request []byte) (response []byte, err error) {
+	// the mock server runs on the caller's goroutine: a panic of the service must not unwind into the client
+	defer func() {
+		if e := recover(); e != nil {
+			response, err = nil, core.NewPanicError(e)
+		}
+	}()
 	if len(request) > h.Service.MaxRequestLength {
 		return nil, core.ErrRequestEntityTooLarge
 	}
